@@ -37,7 +37,9 @@ func TestVerif_C23(t *testing.T) {
 		"the harness owns the schedule at statement granularity; commits never overlap in time (the CAS retry loop is exercised by the goroutine variant only)",
 		"for rows on which Merge3(head at start, head now, committer's view) itself conflicts the head row after dolt_commit is not asserted (the property does not define it); the observed head is adopted",
 		"a transaction writes to one branch only; dolt_commit is issued only when the pending writes are on the session's current branch",
-		"SET autocommit=1 is not issued with pending writes; after a dolt_commit inside BEGIN the session's next statement is COMMIT or ROLLBACK")
+		"SET autocommit=1 is not issued with pending writes; after a dolt_commit inside BEGIN the session's next statement is COMMIT or ROLLBACK",
+		"known finding C22-autocommit-stale-tx-after-failed-dml (open, listed for C23 too): after a failed DML in an autocommit session the session's next statement is ROLLBACK; counted in excluded_known",
+		"dolt_commit with nothing to put into a dolt commit still commits the SQL transaction before reporting 'nothing to commit' (documented in dolt_commit.go); modelled as a plain COMMIT")
 	defer rec.Write(t)
 	dir, cleanup := vh.ScratchDir(t, "c23")
 	defer cleanup()
@@ -50,7 +52,7 @@ func TestVerif_C23(t *testing.T) {
 	defer admin.Close()
 	cfg := c23Cfg()
 	t.Run("pinned_lost_update_after_failed_autocommit_dml", func(t *testing.T) { txPinnedLostUpdate(t, srv, admin) })
-	vh.Check(t, "schedule", 300, 700, func(rt *rapid.T) {
+	vh.Check(t, "schedule", 260, 400, func(rt *rapid.T) {
 		txRunCase(rt, srv, admin, cfg, rec)
 	})
 }
